@@ -92,6 +92,18 @@ func (e *routesEngine) generate(r *rng, n int, tier string, emit func(string)) {
 		last := forms[len(forms)-1]
 		forms = append(append([]MalType{}, forms[:len(forms)-1]...), ls(sy("def"), sy("result"), last))
 		names = append(names, "result")
+		if r.chance(1, 3) {
+			// an error VALUE observed by the program (caught and printed): it must not depend on the route either
+			bad := []MalType{
+				ls(ls(sy("fn"), vc(sy("p"), sy("q")), sy("p")), 1),       // too few arguments
+				ls(ls(sy("fn"), vc(sy("p")), sy("p")), 1, 2),             // too many arguments
+				call1("nth", vc(1, 2), 7),                                // failing builtin
+				sy("undefined-symbol-zz"),                                // unbound symbol
+				call1("throw", HashMap{Val: map[string]MalType{kw("code"): 7}}),
+			}[r.intn(5)]
+			forms = append(forms, ls(sy("def"), sy("caught"), ls(sy("try"), bad, ls(sy("catch"), sy("e"), call1("str", sy("e"))))))
+			names = append(names, "caught")
+		}
 		crlf := r.chance(1, 5)
 		nl := "\n"
 		if crlf {
